@@ -85,6 +85,10 @@ func (m *Model) Layout() {
 			}
 		}
 	}
+	if len(l.characters) > 0 {
+		// the last line has no terminator
+		m.lines = append(m.lines, l)
+	}
 }
 
 // Scrolls the pager down n lines, if it can
